@@ -34,9 +34,14 @@ MANIFEST = dict(
          "Workflow._create_graph builds it, is sorted); C18_async_loop_terminates — expand_workflow_async stops within "
          "2|nodes|+2 iterations for every completion order, failure pattern, max_concurrent>=1 and ANY graph (a stuck "
          "state ends in the stall detector's error); C18_sync_loop_terminates — expand_workflow stops because the "
-         "scanned list is a valid topological order (C37); C18_full combines them. Partial: the loops are modelled "
-         "with one job per node and under the assumption that a launched job's completion becomes visible (what an "
-         "honest worker does); a lost result (job neither done nor errored) is outside the model. Correspondence: "
+         "scanned list is a valid topological order (C37); C18_full combines them. On builder D2's FULL scheduler model "
+         "(Model/Sched.v: several jobs per node, failing jobs, max_concurrent, futured, jobs seen running, stall "
+         "detector) C18_async_loop_terminates_full / C18_sync_loop_terminates_full: for every graph in topological order, "
+         "every set of failing jobs, every max_concurrent>=1 and EVERY oracle the asynchronous loop ends Finished or "
+         "Stalled within |jobs|+2 iterations and the sequential loop ends Finished or Raised within |jobs|+1. Partial: "
+         "both models assume that a completed future's result (or error) is visible to the next poll; a launched job "
+         "whose future ends with neither (worker process died) is outside the models and covered by the correspondence "
+         "run only (finding F18b). Correspondence: "
          "generated workflows incl. back-edges through Node.Inputs.__setattr__, typed and untyped, run on the real "
          "Submitter in fresh interpreters under a watchdog and compared with the model's prediction.",
     note="Trusted: Coq kernel + vm_compute; hand-written model of sorting and of the two submitter loops (node level, "
@@ -59,7 +64,7 @@ ASSUMPTIONS = ["an honest worker: every launched job ends and its result (or err
                "max_concurrent >= 1 (enforced by Submitter.__init__)"]
 RULE = ("generated workflow programs: 2-5 python-task nodes, typed (int) or untyped, each input a constant, the workflow "
         "input or an earlier node's output, 0-2 late `node.inputs.f = other.out` assignments to any node (self, earlier, "
-        "later), optionally one failing node, worker debug or cf; distinct = distinct program JSON; non-trivial = the "
+        "later), optionally one failing node, on cf optionally one node whose worker process dies (os._exit), worker debug or cf; distinct = distinct program JSON; non-trivial = the "
         "program has a late assignment or >= 2 connections")
 
 IMPORTS = ["Model.Graph", "Spec.Graph"]
@@ -73,17 +78,21 @@ from pydra.engine.submitter import Submitter
 LOG = spec["log"]
 if spec["typed"]:
     @python.define
-    def Add(a: int, b: int, tag: str, boom: bool) -> int:
+    def Add(a: int, b: int, tag: str, boom: bool, die: bool) -> int:
         with open(LOG, "a") as f:
             f.write(tag + "\n")
+        if die:
+            os._exit(1)
         if boom:
             raise ValueError("boom in " + tag)
         return a + b
 else:
     @python.define
-    def Add(a, b, tag, boom):
+    def Add(a, b, tag, boom, die):
         with open(LOG, "a") as f:
             f.write(tag + "\n")
+        if die:
+            os._exit(1)
         if boom:
             raise ValueError("boom in " + tag)
         return a + b
@@ -99,7 +108,8 @@ def Wf(x):
         return outs[src[1]].out
     for nd in spec["nodes"]:
         outs[nd["name"]] = workflow.add(
-            Add(a=val(nd["a"]), b=val(nd["b"]), tag=nd["name"], boom=nd.get("boom", False)), name=nd["name"])
+            Add(a=val(nd["a"]), b=val(nd["b"]), tag=nd["name"], boom=nd.get("boom", False),
+                die=nd.get("die", False)), name=nd["name"])
     for la in spec["late"]:
         setattr(outs[la["node"]].inputs, la["field"], outs[la["src"]].out)
     return outs[spec["out"]].out
@@ -148,8 +158,12 @@ def gen_program(rng):
         late.append({"node": names[tgt], "field": rng.choice(["a", "b"]), "src": names[src]})
     if rng.random() < 0.25:
         rng.choice(nodes)["boom"] = True
-    return {"typed": rng.random() < 0.4, "worker": rng.choice(["debug", "debug", "cf"]),
-            "nodes": nodes, "late": late, "out": names[-1]}
+    worker = rng.choice(["debug", "debug", "cf"])
+    if worker == "cf" and rng.random() < 0.25:
+        # the worker process running this job dies (segfault / OOM kill); only on the process pool:
+        # on the debug worker the body runs in the submitting interpreter itself
+        rng.choice(nodes)["die"] = True
+    return {"typed": rng.random() < 0.4, "worker": worker, "nodes": nodes, "late": late, "out": names[-1]}
 
 
 def analyse(p):
@@ -178,7 +192,7 @@ def analyse(p):
                 e = [idx[s[1]], idx[nd["name"]]]
                 if e not in edges:
                     edges.append(e)
-    fails = [idx[nd["name"]] for nd in p["nodes"] if nd["boom"]]
+    fails = [idx[nd["name"]] for nd in p["nodes"] if nd.get("boom") or nd.get("die")]
     # reference value by memoised evaluation (None when cyclic or failing)
     memo, stack = {}, set()
 
@@ -212,7 +226,7 @@ def kind_of(res):
         return "KCycle"
     if "have already been accessed and therefore cannot set" in msg:
         return "KConstruct"
-    if "boom in" in msg or "failed with errors" in msg:
+    if "boom in" in msg or "failed with errors" in msg or "process pool" in msg:
         return "KJob"
     return "KOther"
 
@@ -341,6 +355,7 @@ def run(ctx):
         dist["cyclic"] += a["value"] is None
         dist["with_late_assignment"] += bool(p["late"])
         dist["with_failing_job"] += bool(a["fails"])
+        dist["with_dying_worker_process"] = dist.get("with_dying_worker_process", 0) + any(nd.get("die") for nd in p["nodes"])
         dist["end_" + kind] = dist.get("end_" + kind, 0) + 1
         key = json.dumps(p, sort_keys=True)
         if key not in seen:
@@ -359,6 +374,7 @@ def run(ctx):
         m = meta[i]
         out.failures.append(Failure(case={"program": m["program"]}, observed={"ending": m["kind"], "result": m["result"], "rc": m["rc"], "seconds": m["seconds"]},
                                     expected={"reference": m["analysis"]}, kind="spec",
+                                    finding=("F18b" if m["kind"] == "KHang" and any(nd.get("die") for nd in m["program"]["nodes"]) else None),
                                     note="hang" if m["kind"] == "KHang" else
                                          ("wrong output value" if i in value_bad else "ending does not fit the graph")))
     for i in res["tie"]:
